@@ -4,7 +4,7 @@
     they follow from the recursion structure), every key type and every layer function.  The model
     has no node cache: a Load event is a read of the store. *)
 From Coq Require Import List NArith ZArith Bool.
-From Mast Require Import Prim Key Tree Codec Store Cost CostK.
+From Mast Require Import Prim Key Tree Codec Store Cost CostK Cursor CostCur.
 Import ListNotations.
 
 Section GENERIC.
@@ -37,6 +37,22 @@ Theorem C16_merge : forall fuel a b, lb (merge K V fuel a b) (2 * fuel).
 Proof. exact (merge_loads K V). Qed.
 End GENERIC.
 
+(** cursor steps: Min, Max and Ceil read at most height + 1 nodes, Forward and Backward at most
+    height + 2, from any position on any tree, whatever the outcome (fuel F = height + 1) *)
+Section CURSOR.
+Variables (K V : Type) (cmp : K -> K -> comparison).
+Theorem C16_cursor_min : forall F p, lb (cur_min K V F p) F.
+Proof. exact (cur_min_loads K V). Qed.
+Theorem C16_cursor_max : forall F p, lb (cur_max K V F p) F.
+Proof. exact (cur_max_loads K V). Qed.
+Theorem C16_cursor_ceil : forall F k p, lb (cur_ceil K V cmp F k p) F.
+Proof. exact (cur_ceil_loads K V cmp). Qed.
+Theorem C16_cursor_forward : forall F p, lb (cur_forward K V F p) (S F).
+Proof. exact (cur_forward_loads K V). Qed.
+Theorem C16_cursor_backward : forall F p, lb (cur_backward K V F p) (S F).
+Proof. exact (cur_backward_loads K V). Qed.
+End CURSOR.
+
 (** opening a persisted version reads at most its top node *)
 Theorem C16_load_mast : forall s kind r, lb (load_mast s kind r) 1.
 Proof. exact load_mast_loads. Qed.
@@ -48,3 +64,8 @@ Print Assumptions C16_clone.
 Print Assumptions C16_split.
 Print Assumptions C16_merge.
 Print Assumptions C16_load_mast.
+Print Assumptions C16_cursor_min.
+Print Assumptions C16_cursor_max.
+Print Assumptions C16_cursor_ceil.
+Print Assumptions C16_cursor_forward.
+Print Assumptions C16_cursor_backward.
